@@ -2,6 +2,7 @@ package mongokit
 
 import (
 	"fmt"
+	"math"
 
 	"go.mongodb.org/mongo-driver/bson"
 
@@ -216,6 +217,10 @@ func projectSlice(ctx Context, doc bsonkit.Doc, _, path string, v interface{}) e
 			}
 		}
 		end := start + limit
+		if end < start {
+			// start + limit overflowed
+			end = n
+		}
 		if end > n {
 			end = n
 		}
@@ -231,6 +236,9 @@ func projectSlice(ctx Context, doc bsonkit.Doc, _, path string, v interface{}) e
 		} else {
 			state.merge[path] = array
 		}
+	case limit == math.MinInt:
+		// -limit overflows: the whole array is within the window
+		state.merge[path] = array
 	case limit < 0:
 		n := -limit
 		if n < len(array) {
